@@ -58,6 +58,8 @@ def is_variable_occurrence(body, m):
         return False          # the article at the start of a sentence
     if v in ('AM', 'PM') and re.search(r'\d\s*$', body[:m.start()]):
         return False          # clock value
+    if re.search(r'is a constant equal to\s*$', body[:m.start()]):
+        return False          # the VALUE of a constant ('homeCountry is a constant equal to USA'): a string, not a variable
     return True
 
 
